@@ -40,7 +40,7 @@ def generate(rng, tier):
         which = i % 4
         if which < 2:
             direction = ["enc", "dec"][which]
-            L = rng.choice([1, bs, bs + 1, 2 * bs - 1, 3 * bs + 2, rng.randint(0, 7 * bs)])
+            L = rng.choice([1, bs + 1, 3 * bs + 2, 4 * bs + 1, 5 * bs, 6 * bs + 3, 9 * bs + 1, rng.randint(0, 7 * bs), rng.randint(4 * bs, 12 * bs)])
             msg = rbytes_n(rng, L)
             c = Case("c08_b%d" % i, "block", bs, w, dm, tags=dict(kind="buf_" + direction))
             c.op("new a buf_%s new %s %s" % (direction, hx(key), hx(iv)))
@@ -59,8 +59,8 @@ def generate(rng, tier):
             msg = rbytes_n(rng, L + ext)
             c = Case("c08_b%d" % i, "block", bs, w, dm, tags=dict(kind=mode + "_oneshot"))
             c.op("new a %s_%s new %s %s" % (mode, direction, hx(key), hx(iv)))
-            a = c.op("async a ip %s" % hx(msg[:L]))
-            b = c.op("async a ip %s" % hx(msg))
+            a = async_op(c, rng, "a", msg[:L])
+            b = async_op(c, rng, "a", msg)
             c.expect("one-shot %s is prefix-preserving" % mode, lambda r, a=a, b=b, L=L: rbytes(r[b])[:L] == rbytes(r[a]))
         cases.append(c)
     return cases
